@@ -357,8 +357,25 @@ Proof.
   split; [exact I | eapply on_body_complete_framing; eauto].
 Qed.
 
-Lemma on_headers_complete_spec i i' : on_headers_complete C k i = inl i' -> i' = set_ce i (hget K_CE (i_hdrs i)).
+Lemma on_headers_complete_spec i i' : on_headers_complete C k i = inl i' ->
+  i' = set_ce (set_hdrs i (hc_hdrs C k (i_line i) (i_hdrs i))) (hget K_CE (i_hdrs i)).
 Proof. unfold on_headers_complete. intros H. repeat dmatch; try discriminate; injection H as <-; reflexivity. Qed.
+
+Lemma K_CL_neq_TE : K_CL <> K_TE. Proof. vm_compute. discriminate. Qed.
+Lemma hget_CE_hc line h : hget K_CE (hc_hdrs C k line h) = hget K_CE h.
+Proof.
+  unfold hc_hdrs. destruct (connect_response C k line); [|reflexivity].
+  rewrite !hget_hdel_other; [reflexivity | exact K_CE_neq_CL | exact K_CE_neq_TE].
+Qed.
+(* a response to CONNECT: no Content-Length, no Transfer-Encoding left *)
+Lemma hc_hdrs_connect line h : connect_response C k line = true ->
+  hget K_CL (hc_hdrs C k line h) = None /\ hget K_TE (hc_hdrs C k line h) = None.
+Proof.
+  intros E. unfold hc_hdrs. rewrite E. split; [|apply hget_hdel_same].
+  rewrite hget_hdel_other; [apply hget_hdel_same | exact K_CL_neq_TE].
+Qed.
+Lemma hc_hdrs_plain line h : connect_response C k line = false -> hc_hdrs C k line h = h.
+Proof. intros E. unfold hc_hdrs. rewrite E. reflexivity. Qed.
 
 Lemma after_startline_J i b : J i ->
   match after_startline cfg C k i b with
@@ -374,7 +391,7 @@ Proof.
     + destruct (on_headers_complete C k _) as [i1|e1] eqn:O; [|exact I].
       apply on_headers_complete_spec in O. subst i1.
       apply after_headers_J; cbn; auto.
-      intros ce E. unfold hmem. rewrite E. reflexivity.
+      intros ce E. change (hget K_CE h = Some ce) in E. change (hmem K_CE (hc_hdrs C k (i_line i) h) = true). unfold hmem. rewrite hget_CE_hc, E. reflexivity.
   - apply after_headers_J; auto.
 Qed.
 
